@@ -76,6 +76,8 @@ def random_layout(seed, tier='quick'):
             last = src[-1]
             filler = gen.NULL() if last['k'] in ('note', 'chord', 'text', 'err', 'null') else \
                 gen.NULLI() if last['k'] in ('split', 'join', 'term', 'nulli', 'clef', 'keysig', 'timesig', 'meter', 'staff', 'bbox', 'octx', 'tandem', 'visual') else copy.deepcopy(last)
+            if last['k'] in ('nulli', 'clef', 'keysig', 'timesig', 'meter', 'staff', 'bbox', 'octx', 'tandem', 'visual', 'note', 'null') and r.random() < 0.25:
+                filler = gen.lit('hdr', r.choice(['**text', '**kern', '**dynam']))      # the surplus cell is an exclusive interpretation
             cells = copy.deepcopy(src) + [copy.deepcopy(filler) for _ in range(extra)]
             lines = lines[:k] + [{'ev': 'surplus', 'cells': cells}]
             tags.append('surplus')
